@@ -272,7 +272,7 @@ def _yaml(db, chk):
 
 def _load(db, chk):
     tm = db.mod(TM)
-    lt = tm.func("Trace.load_traces")
+    lt = H.inline_helpers(tm, tm.func("Trace.load_traces"))
     si = [c for c in H.calls(lt) if isinstance(c.func, ast.Attribute) and c.func.attr == "set_index"]
     ok = len(si) == 1 and H.str_const(si[0].args[0] if si[0].args else None) == "index" and any(k.arg == "drop" and isinstance(k.value, ast.Constant) and k.value.value is False for k in si[0].keywords)
     chk.ob("C01.R7-event-id-index", "load_traces indexes every rank's frame by the id column and keeps the column (drop=False)", ok, tm.loc(lt), found=[ast.unparse(c) for c in si],
